@@ -186,17 +186,17 @@ def lifespan_ordering(su: int, sd: int, early: bool, inflight: bool) -> bool:
 # ------------------------------------------------------------------ C15
 
 KINDS = ["idle keep-alive connection", "half a request head", "short request (1 s left)", "request longer than the grace period", "HTTP/2 connection with a slow stream",
-         "open WebSocket", "fresh connection (nothing sent)"]
+         "open WebSocket", "fresh connection (nothing sent)", "HTTP/2 connection with two streams finishing 0.2 s and 0.5 s after the trigger"]
 
 
 @harness(
     "C15",
-    dom={"k0": (0, 6), "k1": (-1, 6), "source": (0, 1), "sd": (0, 1)},
+    dom={"k0": (0, 7), "k1": (-1, 7), "source": (0, 1), "sd": (0, 1)},
     split={"k0": "each"},
     witnesses=[{"k0": 3, "k1": 2, "source": 0, "sd": 0}, {"k0": 0, "k1": -1, "source": 1, "sd": 0}, {"k0": 4, "k1": 5, "source": 0, "sd": 1}],
     budget=200,
     per_path=240,
-    bounds="asyncio worker_serve with 1..2 connections of 7 kinds (idle keep-alive, mid-head, short request, request longer than grace, HTTP/2 slow stream, open WebSocket, fresh) at the trigger; trigger = callable or worker max_requests; lifespan shutdown completing or hanging; graceful_timeout=3, shutdown_timeout=4",
+    bounds="asyncio worker_serve with 1..2 connections of 8 kinds (idle keep-alive, mid-head, short request, request longer than grace, HTTP/2 slow stream, open WebSocket, fresh, HTTP/2 with two streams finishing at different times within the grace period) at the trigger; trigger = callable or worker max_requests; lifespan shutdown completing or hanging; graceful_timeout=3, shutdown_timeout=4",
     encodes=["hypercorn/asyncio/run.py::worker_serve", "hypercorn/asyncio/tcp_server.py::TCPServer._idle_timeout", "hypercorn/asyncio/worker_context.py::WorkerContext.mark_request",
              "hypercorn/protocol/h11.py::H11Protocol._maybe_recycle", "hypercorn/protocol/h2.py::H2Protocol._handle_events", "hypercorn/protocol/h2.py::H2Protocol.stream_send"],
     stubs=["tier C worker level (asyncio only)"],
@@ -207,16 +207,18 @@ def graceful_shutdown(k0: int, k1: int, source: int, sd: int) -> bool:
     post: _
     """
     enter()
-    k0 = conc(k0, 0, 6)
-    k1 = conc(k1, -1, 6)
+    k0 = conc(k0, 0, 7)
+    k1 = conc(k1, -1, 7)
     source = conc(source, 0, 1)
     sd = 3 if conc(sd, 0, 1) == 1 else 0
     kinds = [k0] + ([k1] if k1 >= 0 else [])
     G, ST = 3.0, 4.0
-    n_requests = sum(1 for k in kinds if k in (0, 2, 3, 4)) + sum(1 for k in kinds if k == 5)
+    if kinds.count(4) + kinds.count(7) > 1:
+        return done(True, skipped="one HTTP/2 connection per session")
+    n_requests = sum(1 for k in kinds if k in (0, 2, 3, 4)) + sum(1 for k in kinds if k == 5) + 2 * kinds.count(7)
     cfg = make_config(startup_timeout=5, shutdown_timeout=ST, graceful_timeout=G, keep_alive_timeout=50,
                       max_requests=(n_requests if source == 1 else None))
-    s = WSession(make_app(0, sd, {b"/short": 1.5, b"/long": 1000, b"/h2slow": 1000}), cfg)
+    s = WSession(make_app(0, sd, {b"/short": 1.5, b"/long": 1000, b"/h2slow": 1000, b"/h2a": 0.7, b"/h2b": 1.0}), cfg)
     conns = []
     h2c = None
     for k in kinds:
@@ -238,6 +240,13 @@ def graceful_shutdown(k0: int, k1: int, source: int, sd: int) -> bool:
             s.feed(tr, h2c.take())
         elif k == 5:
             s.feed(tr, ws_h1_handshake())
+        elif k == 7:
+            h2c = H2Client()
+            h2c.request(1, b"GET", b"/h2a", end_stream=True)
+            h2c.request(3, b"GET", b"/h2b", end_stream=True)
+            s.feed(tr, h2c.take())
+            h2c.feed(tr.out.take())
+            s.feed(tr, h2c.take())
     s.advance(0.5)
     if source == 0:
         s.fire()
@@ -264,6 +273,12 @@ def graceful_shutdown(k0: int, k1: int, source: int, sd: int) -> bool:
         st = h2c.streams[3]
         if st.status is not None or (st.reset is None and h2c.terminated is None):
             why = f"new HTTP/2 stream after the trigger was not refused: {st!r}"
+    if 7 in kinds:
+        tr7 = conns[kinds.index(7)]
+        for _ in range(3):
+            s.advance(0.3)
+            h2c.feed(tr7.out.take())
+            s.feed(tr7, h2c.take())
     s.advance(G + ST + 5)
     stuck = any(k in (3, 4, 5) for k in kinds)
     if not why:
@@ -271,7 +286,7 @@ def graceful_shutdown(k0: int, k1: int, source: int, sd: int) -> bool:
             why = f"serve() has not returned {G + ST + 5} s after the trigger (alive: {s.alive_tasks()})"
         else:
             took = s.returned_at - t_fire
-            limit = (G if stuck else (1.0 if 2 in kinds else 0.0)) + (ST if sd == 3 else 0.0) + 0.1
+            limit = (G if stuck else (1.0 if 2 in kinds else (0.9 if 7 in kinds else 0.0))) + (ST if sd == 3 else 0.0) + 0.1
             if took > limit:
                 why = f"shutdown took {took} s, limit {limit} s (grace {G}, shutdown_timeout {ST})"
     if not why and 2 in kinds:
@@ -279,13 +294,22 @@ def graceful_shutdown(k0: int, k1: int, source: int, sd: int) -> bool:
         resps, err, _, _ = h1_parse(tr.out.peek(), [("GET", b"/short")])
         if err or not resps or not resps[0].complete or resps[0].status != 200:
             why = f"request that finished within the grace period was not delivered in full: {resps!r} {err}"
+    if not why and 7 in kinds:
+        h2c.feed(conns[kinds.index(7)].out.take())
+        for sid, path in ((1, b"/h2a"), (3, b"/h2b")):
+            st = h2c.streams[sid]
+            if st.status != 200 or st.data != b"ok" or st.ended != 1:
+                why = f"HTTP/2 stream {sid} ({path!r}) finished within the grace period but was not delivered in full: {st!r} (client errors {h2c.errors})"
+                break
+        if not why and h2c.terminated is None:
+            why = "HTTP/2 client was never told to go away"
     if not why:
         shut = [e for e in s.log if e[0] == "lifespan.shutdown"]
         if len(shut) != 1:
             why = f"lifespan.shutdown delivered {len(shut)} times"
         else:
             t_shut = shut[0][-1]
-            earliest = t_fire + (G if stuck else (1.0 if 2 in kinds else 0.0))
+            earliest = t_fire + (G if stuck else (1.0 if 2 in kinds else (0.5 if 7 in kinds else 0.0)))
             if t_shut < earliest - 1e-6:
                 why = f"lifespan.shutdown at t={t_shut}, before connections drained / grace elapsed (t={earliest})"
     if not why:
